@@ -546,6 +546,7 @@ static void describe_blocked(char* buf, size_t n) {
 }
 
 static uint64_t g_consec = 0;                       // consecutive points of the current fiber
+static uint64_t g_mono_base = 1500;                 // per run: how long one fiber may keep the processor while others are runnable
 static Fiber* pick_default(int kind, Fiber** run, int nrun) {
     Fiber* cur = g_cur;
     bool cur_ok = cur && cur->state == F_RUNNABLE;
@@ -569,7 +570,10 @@ static Fiber* pick_strategy(int kind, Fiber** run, int nrun) {
     g_force_left = 0;
     // no fiber keeps the processor for thousands of points while others are runnable: on real hardware they run in
     // parallel, and a tight retry loop without any pause (tbbmalloc's findBlock) would otherwise shut out the fiber it waits for
-    if (cur_ok && nrun > 1 && g_consec > 1500 + g_rng_sched.below(1500)) {
+    // The limit is a per-run knob: short (1500-3000 points) in half of the runs, long (15000-40000) in the others, so that
+    // PCT / burst can still keep one thread inside an operation while another completes a long one (a bulk insert that
+    // doubles a table twice); the burst granted to the other fiber grows with the limit.
+    if (cur_ok && nrun > 1 && g_consec > g_mono_base + g_rng_sched.below(g_mono_base)) {
         // (a fiber that the stall / hunt strategy is holding back on purpose stays held: long delays of one thread across
         //  thousands of steps of another are exactly what those strategies are for)
         Fiber* cand[MAX_FIBERS]; int nc = 0;
@@ -580,7 +584,7 @@ static Fiber* pick_strategy(int kind, Fiber** run, int nrun) {
                 cand[nc++] = run[i];
         if (nc) {
             Fiber* o = cand[g_rng_sched.below(nc)];
-            g_force_fiber = o->id; g_force_left = 10 + (int)g_rng_sched.below(60);
+            g_force_fiber = o->id; g_force_left = g_mono_base > 5000 ? 100 + (int)g_rng_sched.below(400) : 10 + (int)g_rng_sched.below(60);
             return o;
         }
     }
@@ -838,6 +842,7 @@ void child_run(const Job& job, const uint64_t* tape, const Dec* dec, Shared* out
     g_stall_to = g_stall_from + est / 2 + g_rng_sched.below(est * 2);
     g_hunt_victim = -1; g_hunt_pending = -1; g_nstale = 0; g_hunts_left = 1 + (int)g_rng_sched.below(3); g_stale_left = 3 + (int)g_rng_sched.below(6);
     { static const uint32_t dn[] = {4, 4, 16, 64}; g_drain_n = dn[g_rng_sched.below(4)]; }
+    g_mono_base = g_rng_sched.below(2) ? 1500 : 15000 + g_rng_sched.below(5001);
     g_cfg.strategy = g_strategy;
     if (g_replay) g_strategy = -1;
     alarm((job.flags & JF_SHORT_ALARM) ? 12 : job.tier ? 120 : 60);
